@@ -522,39 +522,43 @@ func (o EncObs) coq(specs []PSpec) string {
 // allocation budget lets through inside graphsync-filecoin metadata.
 const gsLinkMax = 10485701
 
+// limitProbe runs inside the worker: graphsync-filecoin round trip with a link of n bytes.
+func limitProbe(n int) callRes {
+	// identity-multihash CID whose bytes have length n-1
+	l := n - 1 - 3 - 4
+	c := cat([]byte{0x01, 0x55, 0x00}, varint.ToUvarint(uint64(l)), make([]byte, l))
+	if len(c) != n-1 {
+		panic("harness: limits: cid length")
+	}
+	g := &metadata.GraphsyncFilecoinV1{}
+	pc, err := cid.Cast(c)
+	if err != nil {
+		panic(err)
+	}
+	g.PieceCID = pc
+	return guarded(func() (err error) {
+		enc, err := g.MarshalBinary()
+		if err != nil {
+			return err
+		}
+		m := metadata.Default.New()
+		if err := m.UnmarshalBinary(enc); err != nil {
+			return err
+		}
+		re, err := m.MarshalBinary()
+		if err != nil {
+			return err
+		}
+		if !bytes.Equal(re, enc) {
+			return fmt.Errorf("re-encoding differs")
+		}
+		return nil
+	})
+}
+
 func (r *runner) limits() {
 	for _, n := range []int{gsLinkMax - 1, gsLinkMax, gsLinkMax + 1, gsLinkMax + 2} {
-		// identity-multihash CID whose bytes have length n-1
-		l := n - 1 - 3 - 4
-		c := cat([]byte{0x01, 0x55, 0x00}, varint.ToUvarint(uint64(l)), make([]byte, l))
-		if len(c) != n-1 {
-			panic("harness: limits: cid length")
-		}
-		g := &metadata.GraphsyncFilecoinV1{}
-		pc, err := cid.Cast(c)
-		if err != nil {
-			panic(err)
-		}
-		g.PieceCID = pc
-		var enc []byte
-		res := guarded(func() (err error) {
-			enc, err = g.MarshalBinary()
-			if err != nil {
-				return err
-			}
-			m := metadata.Default.New()
-			if err := m.UnmarshalBinary(enc); err != nil {
-				return err
-			}
-			re, err := m.MarshalBinary()
-			if err != nil {
-				return err
-			}
-			if !bytes.Equal(re, enc) {
-				return fmt.Errorf("re-encoding differs")
-			}
-			return nil
-		})
+		res := r.w.request(fmt.Sprintf("L%d", n))
 		r.c.Eval()
 		r.c.Count("lim:gs-link-length")
 		if res.out == "panic" {
@@ -562,24 +566,6 @@ func (r *runner) limits() {
 		}
 		r.c.Case("lim", fmt.Sprintf("(LimGsLink %d %s)", n, vlib.CoqBool(res.out == "ok")), Replay{Kind: "lim", What: fmt.Sprintf("gs link length %d -> %s %s", n, res.out, res.msg)})
 	}
-}
-
-// slug keeps the letters of the first words of an error message (no numbers, so that
-// it names the kind of error and not the instance).
-func slug(s string) string {
-	var b strings.Builder
-	for _, r := range s {
-		switch {
-		case r >= 'a' && r <= 'z' || r >= 'A' && r <= 'Z':
-			b.WriteRune(r)
-		case r == ' ' && b.Len() > 0 && !strings.HasSuffix(b.String(), "-"):
-			b.WriteByte('-')
-		}
-		if b.Len() >= 48 {
-			break
-		}
-	}
-	return strings.TrimSuffix(b.String(), "-")
 }
 
 // cb prints a byte string for the case files: (B len [w1; w2; ...]) with seven bytes
@@ -611,4 +597,22 @@ func ci(x uint64) string {
 		panic("harness: number does not fit a 63-bit literal")
 	}
 	return fmt.Sprintf("0x%x%%uint63", x)
+}
+
+// slug keeps the letters of the first words of an error message (no numbers, so that
+// it names the kind of error and not the instance).
+func slug(s string) string {
+	var b strings.Builder
+	for _, r := range s {
+		switch {
+		case r >= 'a' && r <= 'z' || r >= 'A' && r <= 'Z':
+			b.WriteRune(r)
+		case r == ' ' && b.Len() > 0 && !strings.HasSuffix(b.String(), "-"):
+			b.WriteByte('-')
+		}
+		if b.Len() >= 48 {
+			break
+		}
+	}
+	return strings.TrimSuffix(b.String(), "-")
 }
